@@ -13,6 +13,7 @@ import (
 	"errors"
 	"fmt"
 	"io"
+	"os"
 	"sync"
 	"testing/synctest"
 	"time"
@@ -21,6 +22,7 @@ import (
 
 	"github.com/libp2p/go-libp2p/core/connmgr"
 	"github.com/libp2p/go-libp2p/core/crypto"
+	"github.com/libp2p/go-libp2p/core/event"
 	"github.com/libp2p/go-libp2p/core/host"
 	"github.com/libp2p/go-libp2p/core/network"
 	"github.com/libp2p/go-libp2p/core/peer"
@@ -41,6 +43,8 @@ type vNet struct {
 	mu      sync.Mutex
 	closed  bool
 	down    map[[2]peer.ID]bool // pairs being / having been disconnected by the harness
+	subs    []event.Subscription
+	noWait  bool
 }
 
 func newVNet(c *vCase) *vNet {
@@ -152,11 +156,43 @@ func (n *vNet) NewHost(name, ip string) *vHost {
 	n.cms = append(n.cms, cm)
 	vh := &vHost{Host: h, net: n, key: k, cm: cm, name: name}
 	n.hosts = append(n.hosts, vh)
+	if os.Getenv("VERIF_LIBLOG") != "" {
+		if sub, err := h.EventBus().Subscribe([]interface{}{new(event.EvtPeerIdentificationCompleted), new(event.EvtPeerIdentificationFailed), new(event.EvtPeerConnectednessChanged)}); err == nil {
+			n.subs = append(n.subs, sub)
+			go func() {
+				for ev := range sub.Out() {
+					switch e := ev.(type) {
+					case event.EvtPeerIdentificationCompleted:
+						n.c.Logf("EVT[%s] identified %s protocols=%v", name, n.Name(e.Peer), e.Protocols)
+					case event.EvtPeerIdentificationFailed:
+						n.c.Logf("EVT[%s] identify FAILED %s: %v", name, n.Name(e.Peer), e.Reason)
+					case event.EvtPeerConnectednessChanged:
+						n.c.Logf("EVT[%s] connectedness %s -> %v", name, n.Name(e.Peer), e.Connectedness)
+					}
+				}
+			}()
+		}
+	}
 	return vh
 }
 
 // Connect makes a dial b (a's connection is outbound, b's inbound).
+// Connect makes a dial b. It first waits for quiescence: go-libp2p's identify
+// service refreshes its protocol snapshot asynchronously after a stream handler
+// is registered; a peer dialled before that answers identify without its pubsub
+// protocol and is never noticed by the other side (a go-libp2p start-up race
+// that real deployments do not hit because handlers are registered long before
+// the first connection).
 func (n *vNet) Connect(a, b peer.ID) error {
+	if !n.noWait {
+		synctest.Wait()
+	}
+	return n.ConnectNoWait(a, b)
+}
+
+// ConnectNoWait is for goroutines other than the case's main goroutine
+// (synctest.Wait may only be called by one goroutine at a time).
+func (n *vNet) ConnectNoWait(a, b peer.ID) error {
 	n.mu.Lock()
 	delete(n.down, vPair(a, b))
 	n.mu.Unlock()
@@ -211,6 +247,9 @@ func (n *vNet) Close() {
 	n.mu.Unlock()
 	for _, p := range n.puppets {
 		p.shutdown()
+	}
+	for _, s := range n.subs {
+		s.Close()
 	}
 	n.mn.Close()
 	for _, cm := range n.cms {
@@ -335,6 +374,7 @@ func (h *vHost) NewStream(ctx context.Context, p peer.ID, pids ...protocol.ID) (
 	}
 	s, err := h.Host.NewStream(ctx, p, pids...)
 	if err != nil {
+		h.net.c.Logf("%s: NewStream to %s failed: %v", h.name, h.net.Name(p), err)
 		return nil, err
 	}
 	return &vStream{Stream: s, h: h, remote: p}, nil
